@@ -27,6 +27,14 @@ if [ "$REPO" != "/repo" ] && [ -z "${VERIF_OUT_DIR:-}" ]; then
   export VERIF_OUT_DIR=$VERIF/build/scratch-repo-out   # runs against a scratch copy never touch evidence/
   mkdir -p "$VERIF_OUT_DIR"
 fi
+if [ "$mode" = "thorough" ] && { [ "$id" = "C12" ] || [ "$id" = "C20" ]; }; then
+  # labelled supplement (never the deciding step): the same bodies free-running under the race detector
+  if (cd "$REPO" && go test -race -c -vet=off -tags verif -overlay "$ov" -o "$run/verif.race.test" . ) > "$run/build-race.log" 2>&1; then
+    export VERIF_RACE_BIN=$run/verif.race.test
+  else
+    echo "note: race-detector supplement not built"; tail -5 "$run/build-race.log"
+  fi
+fi
 export VERIF_CHECK=$id
 if [ "$mode" = "--replay" ]; then
   export VERIF_REPLAY=${3:?missing replay file}
